@@ -53,6 +53,8 @@ def run(tier, mode):
             t = pool[i]
         elif k < 0.4:
             t = P.render(r, P.gen_desc(r), r.choice(P.LAYOUTS))
+            if k < 0.08:
+                t = H.altdigits(r, t)      # every number in digits of another script (what `\\d` and int() accept): the tracts must come out in standard form all the same
         elif k < 0.7:
             t = G.damage(r, G.structured_desc(r))
         else:
